@@ -23,3 +23,74 @@ def chunksAt (is : List Instr) (cuts : List Nat) : List (List Instr) :=
   go is 0 cuts
 
 end QV.C08
+
+namespace QV.C08
+open QV.Prog
+
+/-! ### program-PRODUCING operations on built programs (derived programs)
+
+Determinism and first-added order must also hold of programs obtained from a built program by the
+public producing operations. Opaque inputs (expansion outputs, which keys `simplify` keeps, the five
+`wrap_in_loop` instructions, the resolved body) are supplied by the harness as in C10; kept keys are
+supplied as SETS — the ORDER of every derived container is computed by the model from the order
+of the program the operation was applied to. -/
+
+/-- `CalibrationSet::remove` (calibration_set.rs:111): remove the first element with the signature -/
+def eraseKey : List Instr → String → List Instr
+  | [], _ => []
+  | x :: xs, k => if x.key = k then xs else x :: eraseKey xs k
+
+inductive DOp where
+  /-- `Program::simplify` -/
+  | simplify (out : List Instr) (kF kW kE : List String)
+  /-- `p.frames = p.frames.intersection(keys)` (frame.rs:107) -/
+  | intersect (keys : List String)
+  /-- `p.frames.merge(q.frames)` -/
+  | merge
+  /-- `p.calibrations.extend(q.calibrations)` -/
+  | calExtend
+  /-- `p.extern_pragma_map.extend(q.extern_pragma_map)` -/
+  | extExtend
+  /-- `p.calibrations.calibrations.remove(sig)` / `measure_calibrations.remove(sig)` -/
+  | calRemove (key : String)
+  | mcalRemove (key : String)
+  /-- `expand_calibrations` / `_with_source_map` -/
+  | expCal (out : List Instr)
+  /-- `expand_defgate_sequences` / `_with_source_map` -/
+  | expSeq (kept : List String) (out : List Instr)
+  | clone
+  | cloneWb
+  | wrap (n : Nat) (hd tl : List Instr)
+  | resolve (nb : List Instr)
+  /-- `derive p a + derive q b` (operands derived from two built programs) -/
+  | sum (a b : DOp)
+  deriving Repr, Inhabited
+
+def derive (p q : Program) : DOp → Program
+  | .simplify out kF kW kE => Prog.simplify p out kF kW kE
+  | .intersect ks => { p with frames := p.frames.filter (fun f => ks.contains f.key) }
+  | .merge => { p with frames := extendMap p.frames q.frames }
+  | .calExtend => { p with cals := extendMap p.cals q.cals, mcals := extendMap p.mcals q.mcals }
+  | .extExtend => { p with externs := extendMap p.externs q.externs }
+  | .calRemove k => { p with cals := eraseKey p.cals k }
+  | .mcalRemove k => { p with mcals := eraseKey p.mcals k }
+  | .expCal out => expandCalibrations p out
+  | .expSeq kept out => expandSequences p kept out
+  | .clone => p
+  | .cloneWb => cloneWithoutBody p
+  | .wrap n hd tl => wrapInLoop p n hd tl
+  | .resolve nb => resolvePlaceholders p nb
+  | .sum a b => concat (derive p q a) (derive q p b)
+
+/-- Bool form of "first-added order is kept": the keys that were already in `base` come first, in
+`base`'s relative order; keys new to `base` follow. -/
+def ordPres (base out : List String) : Bool :=
+  let old := out.filter (fun k => base.contains k)
+  let new := out.filter (fun k => !base.contains k)
+  out == old ++ new && old.isSublist base
+
+/-- per definition kind, the derived listing keeps the first-added order of the base listing -/
+def ordPresListing (base out : List Instr) : Bool :=
+  Kind.defs.all fun k => ordPres (keys (ofKind k base)) (keys (ofKind k out))
+
+end QV.C08
